@@ -415,6 +415,7 @@ def prop_C17(run):
     rules_asm.nested_arg_text(run)
     rules_asm.argument_context_rules(run)
     rules_asm.new_deepened_rule(run)
+    rules_asm.block_label_align(run)
     rules_asm.fn_rules(run)
     rules_asm.args_rules(run)
     rules_idx.static_known(run)
